@@ -54,6 +54,12 @@ def tab(k):
     return bool(row[-1]) if row else CTX.default
 
 
+def tabv(k):
+    """Like tab, but a truthy / falsy value that is not a bool (conditions are judged by
+    their truth value, as everywhere in Python)."""
+    return [2, 0.5, "x", (0,)][k % 4] if tab(k) else [0, 0.0, "", ()][k % 4]
+
+
 def ev(label):
     CTX.seq += 1
     CTX.log.append((now(), "ev", label))
